@@ -7,6 +7,7 @@ import (
 	"fmt"
 	"os"
 	"path/filepath"
+	"strings"
 	"testing"
 
 	"github.com/grafana/regexp"
@@ -145,6 +146,16 @@ func TestVerif_C01_Random(t *testing.T) {
 			opts := &zoekt.SearchOptions{ChunkMatches: rng.Intn(2) == 0}
 			sh := c.Repos[rng.Intn(len(c.Repos))].Shard
 			c01Search(tr, l, "shard", sh, &corpus.Q{T: "symbol", Sub: []*corpus.Q{e}}, opts, detail, nil)
+		}
+		// the markers inside long runs of 4-byte runes (their byte offsets lie far from the last rune-offset sample)
+		for di := range c.Docs {
+			if !strings.HasPrefix(c.Docs[di].Effective(), "😀😀") {
+				continue
+			}
+			for j := 0; j < 8; j++ {
+				e := &corpus.Q{T: "substr", Pat: corpus.EmojiMarker(j), CT: true, CS: j%2 == 0}
+				c01Search(tr, l, "shard", c.Repos[c.Docs[di].Repo].Shard, e, &zoekt.SearchOptions{ChunkMatches: j%3 == 0}, detail, nil)
+			}
 		}
 		// matches at the very end / start of a content or name, pattern spelled with other members of
 		// the fold orbits
